@@ -239,6 +239,16 @@ where
 }
 
 fn extend(seed: &[u8; 16], xof_mode: &XofMode<'_>) -> ([[u8; 16]; 2], [Choice; 2]) {
+    #[cfg(feature = "verif-hooks")]
+    if verif_enter() {
+        let (seeds, control_bits) = extend(seed, xof_mode);
+        let mut out = seeds[0].to_vec();
+        out.push(control_bits[0].unwrap_u8());
+        out.extend_from_slice(&seeds[1]);
+        out.push(control_bits[1].unwrap_u8());
+        verif_leave(0, matches!(xof_mode, XofMode::Leaf(..)), seed, out);
+        return (seeds, control_bits);
+    }
     let mut seeds = [[0u8; 16], [0u8; 16]];
     match xof_mode {
         XofMode::Inner(fixed_key) => {
@@ -264,6 +274,37 @@ fn extend(seed: &[u8; 16], xof_mode: &XofMode<'_>) -> ([[u8; 16]; 2], [Choice; 2
     (seeds, [control_bits_0.into(), control_bits_1.into()])
 }
 
+#[cfg(feature = "verif-hooks")]
+thread_local! {
+    /// Verification hook: when `Some`, every outermost `extend`/`convert` call is appended as
+    /// (kind: 0 = extend, 1 = convert; leaf mode; input seed; output bytes).
+    pub(crate) static VERIF_PRG_LOG: std::cell::RefCell<Option<Vec<(u8, bool, [u8; 16], Vec<u8>)>>> =
+        const { std::cell::RefCell::new(None) };
+    static VERIF_PRG_INSIDE: std::cell::Cell<bool> = const { std::cell::Cell::new(false) };
+}
+
+/// Returns true when recording is on and this is not the re-entrant call made by the hook itself.
+#[cfg(feature = "verif-hooks")]
+fn verif_enter() -> bool {
+    let on = VERIF_PRG_LOG.with(|log| log.borrow().is_some());
+    if on && !VERIF_PRG_INSIDE.with(|f| f.get()) {
+        VERIF_PRG_INSIDE.with(|f| f.set(true));
+        true
+    } else {
+        false
+    }
+}
+
+#[cfg(feature = "verif-hooks")]
+fn verif_leave(kind: u8, leaf: bool, seed: &[u8; 16], out: Vec<u8>) {
+    VERIF_PRG_INSIDE.with(|f| f.set(false));
+    VERIF_PRG_LOG.with(|log| {
+        if let Some(log) = log.borrow_mut().as_mut() {
+            log.push((kind, leaf, *seed, out));
+        }
+    });
+}
+
 fn convert<V>(
     seed: &[u8; 16],
     xof_mode: &XofMode<'_>,
@@ -272,6 +313,14 @@ fn convert<V>(
 where
     V: IdpfValue,
 {
+    #[cfg(feature = "verif-hooks")]
+    if verif_enter() {
+        let (next_seed, value) = convert::<V>(seed, xof_mode, parameter);
+        let mut out = next_seed.to_vec();
+        let _ = value.encode(&mut out);
+        verif_leave(1, matches!(xof_mode, XofMode::Leaf(..)), seed, out);
+        return (next_seed, value);
+    }
     let mut next_seed = [0u8; 16];
     match xof_mode {
         XofMode::Inner(fixed_key) => {
